@@ -1249,9 +1249,23 @@ func runHelper(fam *family, c *HelperCase) (out *helperOut, err error) {
 		ran = true
 		var want []byte
 		var rerr error
-		if c.Preset != "" {
-			fc.Writer().Header().Set("Content-Type", c.Preset)
+		var shared []string
+		switch {
+		case strings.HasPrefix(c.Preset, "shared:"):
+			// a default value slice owned by someone else (a package-level default assigned into the header map): the helper
+			// replaces the header entry, it does not write into that slice
+			shared = []string{strings.TrimPrefix(c.Preset, "shared:")}
+			fc.Writer().Header()["Content-Type"] = shared
+		case c.Preset != "":
+			for _, v := range strings.Split(c.Preset, "|") {
+				fc.Writer().Header().Add("Content-Type", v)
+			}
 		}
+		defer func() {
+			if shared != nil && herr == nil && shared[0] != strings.TrimPrefix(c.Preset, "shared:") {
+				herr = fmt.Errorf("%s: the value slice that held the earlier Content-Type now reads %q: the helper wrote into a slice it does not own", c, shared)
+			}
+		}()
 		switch c.Helper {
 		case "String":
 			args := make([]any, len(c.Args))
@@ -1405,7 +1419,7 @@ func genHelper(t *rapid.T) *HelperCase {
 	}
 	c.Helper = gen.Pick(t, hs, "helper")
 	c.Code = gen.Pick(t, helperCodes, "code")
-	c.Preset = gen.Pick(t, []string{"", "", "application/x-preset", "text/plain; charset=utf-8"}, "preset")
+	c.Preset = gen.Pick(t, []string{"", "", "application/x-preset", "text/plain; charset=utf-8", "application/x-one|text/x-two", "shared:application/x-default"}, "preset")
 	switch c.Helper {
 	case "String":
 		f := gen.Pick(t, formats, "format")
